@@ -561,7 +561,7 @@ Definition hv_metadata_v210 (f : h5file) : result (list msg) :=
         match hfind (h_root f) (P2 "observation" "metadata"), hfind (h_root f) (P2 "sample" "metadata") with
         | Some (HGroup _), Some (HGroup _) =>
             if bad (node_len oi) (hfind (h_root f) (P2 "observation" "metadata")) then ROk [[HMSG_MD; 4]]
-            else if bad (node_len si) (hfind (h_root f) (P2 "sample" "metadata")) then ROk [[HMSG_MD; 5]]
+            else if bad (node_len si) (hfind (h_root f) (P2 "sample" "metadata")) then ROk [[HMSG_MD; 4]]
             else ROk []
         | _, _ => RErr E_ATTR                 (* a dataset has no items() *)
         end
